@@ -352,11 +352,14 @@ def _filt_body(case, ctx):
         base = amp * np.cos(kz * grids[0] + ky * grids[1] + kx * grids[2] + case["phase"])
     field0 = (np.stack([base, -0.5 * base, 2.0 * base]) if ft == "vector" else base).astype(real_t)
 
-    def run(fill):
+    def make(fill):
         bufs = np.full((2, *shape), fill, dtype=real_t)
         with ctx.repo_call("gen_laplacian_filter_kernel_3d"):
             k = spne.gen_laplacian_filter_kernel_3d(filter_order=o, filter_flux_buffer=bufs[0], field_buffer=bufs[1], real_t=real_t,
                                                     num_threads=case["threads"], field_type=ft, filter_type=t)
+        return k, bufs
+
+    def apply(k):
         f = field0.copy()
         with ctx.repo_call(f"laplacian filter order {o} {t} {ft}"):
             if ft == "vector":
@@ -365,10 +368,20 @@ def _filt_body(case, ctx):
                 k(scalar_field=f)
         return f
 
-    out_zero = run(0.0)
-    out_poison = run(case["poison"])
-    if out_zero.tobytes() != out_poison.tobytes():
-        raise Violation(f"laplacian filter order {o} {t}: result depends on the previous contents of the work buffers")
+    # (1) buffers zero at generation and at the call
+    k0, bufs0 = make(0.0)
+    out_zero = apply(k0)
+    # (2) buffers poisoned BEFORE generation
+    k1, _ = make(case["poison"])
+    out_poison = apply(k1)
+    # (3) the SAME kernel object, buffers dirtied AFTER generation / between calls (as the simulators re-use the buffers)
+    bufs0[...] = case["poison"]
+    out_again = apply(k0)
+    bufs0[0][...] = -0.75 * case["poison"]
+    out_third = apply(k0)
+    if not (out_zero.tobytes() == out_poison.tobytes() == out_again.tobytes() == out_third.tobytes()):
+        which = "before generation" if out_zero.tobytes() != out_poison.tobytes() else "between calls of the same kernel object"
+        raise Violation(f"laplacian filter order {o} {t}: result depends on the previous contents of the work buffers (dirtied {which})")
     depth = _depth(shape)
     away = depth >= o + 1
     comps = out_zero if ft == "vector" else out_zero[None]
